@@ -92,6 +92,9 @@ def items(tier):
     add("sysofeq", "n3-freeonly", n=3, free=[0, 1], given="free", mclass="general", sparse=True)
     add("sysofeq", "n3-presonly", n=3, free=[1, 2], given="prescribed", mclass="general", sparse=True)
     add("sysofeq", "n3-sym", n=3, free=[0, 2], mclass="symmetric", sparse=True)
+    # real dense matrix, complex applied loads (NumPy's real/complex assignment rules modelled: logical dtypes)
+    add("sysofeq", "n3-f02-de-cplxloads", n=3, free=[0, 2], mclass="general", sparse=False, cplx_rhs=True, logical_dtype=True)
+    add("sysofeq", "n2-f0-de-cplxloads", n=2, free=[0], mclass="general", sparse=False, cplx_rhs=True, logical_dtype=True)
     # index sets in the user's own (not ascending) order: b_f and x_p follow that order
     add("sysofeq", "n3-f20-unsorted", n=3, free=[2, 0], mclass="general", sparse=True)
     add("sysofeq", "n3-p20-unsorted", n=3, free=[1], pres=[2, 0], mclass="general", sparse=False)
@@ -214,6 +217,9 @@ SCEN = dict(linsolve=sc_linsolve, inverse=sc_inverse, sysofeq=sc_sysofeq, statco
 
 
 def run_item(cfg, tier):
+    if cfg.get("logical_dtype"):
+        from symx.array import enable_logical_dtype
+        enable_logical_dtype(True)      # forked worker only
     return symbolic_run(SCEN[cfg["kind"]], cfg, tier, max_paths=cfg.get("max_paths", 120))
 
 
